@@ -130,8 +130,6 @@ impl Search {
         };
 
         self.iter_deep(evaluator, max_depth);
-
-        self.stop();
     }
 
     /// Iterates through the search at increasing depths until the search is stopped or the maximum depth is reached
@@ -165,6 +163,10 @@ impl Search {
 
         #[cfg(rce_verif)]
         crate::verif::sched("S.pre_best");
+        // The search is over: say so before the answer is printed, so that a go sent in reaction
+        // to the bestmove line never finds this search still marked as running.
+        self.stop();
+
         // If not even the first iteration could be completed there is no searched move yet:
         // answer with the first legal move of the root rather than with nothing.
         let best_move = self
